@@ -1,7 +1,7 @@
 /-
   C19 — EVM contract state stays coherent across nested, re-entrant and reverted calls.
 
-  `impl_refines_spec`: the flush / reload / dirty-flag / lifespan / tombstone machinery of
+  `impl_refines_spec_partial`: the flush / reload / dirty-flag / lifespan / tombstone machinery of
   `System` (interpreter/system.rs, model `implRun`) is observationally equal to Ethereum's
   journaled state (`specRun`) for every call-tree script: any number of contracts, any nesting and
   re-entrancy shape, CALL / STATICCALL / DELEGATECALL, reverts and failures at any depth, storage,
@@ -22,7 +22,10 @@ open BA
 def VM.Fresh (vm : VM) (l : Life) : Prop :=
   ∀ a, (vm.actors a).tomb ≠ some l ∧ ∀ m, (vm.actors a).tdata ≠ some (m, l)
 
-/-- **Refinement.** From any quiescent implementation state `vm` (standing for the spec world
+/-- **Refinement** (`_partial`: the script language has no CREATE / CREATE2 / Resurrect, which the
+    property's quantifier includes; everything else — CALL, STATICCALL, DELEGATECALL, reverts,
+    storage, transient storage, value, logs, SELFDESTRUCT — is covered in full generality).
+    From any quiescent implementation state `vm` (standing for the spec world
     `vm.abs`), for every sequence of top-level messages with fresh, pairwise distinct
     (origin, nonce) and arbitrary call-tree scripts: the success flag and the observation log
     (every value read by SLOAD / TLOAD / ADDRESS / CALLER / CALLVALUE / SELFBALANCE at every depth,
@@ -30,7 +33,7 @@ def VM.Fresh (vm : VM) (l : Life) : Prop :=
     in the journaled-state spec, and so are the final observable storage (`GetStorageAt`) of every
     contract, which contracts are destroyed (`GetBytecode = None`), all balances and the committed
     event list. -/
-theorem impl_refines_spec (vm : VM) (msgs : List Msg) (hfresh : ∀ m ∈ msgs, vm.Fresh m.life)
+theorem impl_refines_spec_partial (vm : VM) (msgs : List Msg) (hfresh : ∀ m ∈ msgs, vm.Fresh m.life)
     (hnd : (msgs.map (·.life)).Nodup) :
     (implRun vm msgs).1 = (specRun vm.abs msgs).1 ∧
     (∀ a k, (implRun vm msgs).2.storageAt a k = (specRun vm.abs msgs).2.stor a k) ∧
@@ -44,7 +47,7 @@ theorem impl_refines_spec (vm : VM) (msgs : List Msg) (hfresh : ∀ m ∈ msgs, 
   exact ⟨h1.symm, h2.observables⟩
 
 /-- the same from the freshly deployed system (all contracts empty, no balances) -/
-theorem impl_refines_spec_init (msgs : List Msg) (hnd : (msgs.map (·.life)).Nodup) :
+theorem impl_refines_spec_init_partial (msgs : List Msg) (hnd : (msgs.map (·.life)).Nodup) :
     (implRun VM.init msgs).1 = (specRun SWorld.init msgs).1 ∧
     (∀ a k, (implRun VM.init msgs).2.storageAt a k = (specRun SWorld.init msgs).2.stor a k) ∧
     (∀ a, (implRun VM.init msgs).2.isDestroyed a = (specRun SWorld.init msgs).2.dead a) := by
@@ -121,6 +124,39 @@ theorem reverted_call_leaves_no_trace (vm : VM) (life : Life) (A B k v v' t x : 
     simp [specMsg, specOps, specOp, specResume, SRes.finish, callValue, calleeCtx, topCtx,
       SWorld.setStor, SWorld.setTrans, VM.abs, hA, hB, credit, envVal, hlt, SWorld.finalize]
 
+/-- **A failed call leaves no trace — general form.**  For every sub-script `body`, call kind,
+    target and value, and every continuation `rest`: if the call on its own reports flag 0 (it
+    reverted, failed, or could not be paid for) with return data `l`, then running it in front of
+    `rest` gives exactly the final storage, destroyed set, balances and events of running `rest`
+    alone; the caller continues, and the only difference is the prefix `0 :: l` in the observation
+    log (where a log is returned at all). From any quiescent state, in the implementation model. -/
+theorem failed_call_leaves_no_trace (vm : VM) (life : Life) (A value : Nat) (kind : Kind)
+    (t val : Nat) (body rest : List Op) (l : List Nat) (hfresh : vm.Fresh life)
+    (hfail : (implMsg vm (Msg.mk life A value [.call kind t val body])).1 = (1, 0 :: l)) :
+    let r1 := implMsg vm (Msg.mk life A value (.call kind t val body :: rest))
+    let r2 := implMsg vm (Msg.mk life A value rest)
+    (r1.1 = r2.1 ∨ r1.1 = (r2.1.1, 0 :: l ++ r2.1.2)) ∧
+    (∀ a k, r1.2.storageAt a k = r2.2.storageAt a k) ∧
+    (∀ a, r1.2.isDestroyed a = r2.2.isDestroyed a) ∧ r1.2.bal = r2.2.bal ∧
+    r1.2.events = r2.2.events := by
+  intro r1 r2
+  obtain ⟨a0, _⟩ := msg_refines_spec vm (Msg.mk life A value [.call kind t val body]) hfresh
+  obtain ⟨a1, b1, c1, d1, e1⟩ := msg_refines_spec vm (Msg.mk life A value (.call kind t val body :: rest)) hfresh
+  obtain ⟨a2, b2, c2, d2, e2⟩ := msg_refines_spec vm (Msg.mk life A value rest) hfresh
+  rw [a0] at hfail
+  obtain ⟨hlog, hst⟩ := spec_msg_failed_call vm.abs life A value kind t val body rest l hfail
+  refine ⟨?_, fun a k => ?_, fun a => ?_, ?_, ?_⟩
+  · show (implMsg vm _).1 = (implMsg vm _).1 ∨ (implMsg vm _).1 = ((implMsg vm _).1.1, 0 :: l ++ (implMsg vm _).1.2)
+    rw [a1, a2]; exact hlog
+  · show (implMsg vm _).2.storageAt a k = (implMsg vm _).2.storageAt a k
+    rw [b1, b2, hst]
+  · show (implMsg vm _).2.isDestroyed a = (implMsg vm _).2.isDestroyed a
+    rw [c1, c2, hst]
+  · show (implMsg vm _).2.bal = (implMsg vm _).2.bal
+    rw [d1, d2, hst]
+  · show (implMsg vm _).2.events = (implMsg vm _).2.events
+    rw [e1, e2, hst]
+
 /-- **Transient storage is shared within one top-level message**: the re-entered inner activation
     of `A` reads the outer activation's TSTORE and the outer one reads the inner one's. -/
 theorem transient_shared_within_message (vm : VM) (life : Life) (A B k v v' value : Nat)
@@ -140,7 +176,7 @@ theorem transient_empty_next_message (vm : VM) (m1 : Msg) (life2 : Life) (A k va
     let r := (implRun vm [m1, (Msg.mk life2 A value [.tload k])]).1
     r[1]? = some (1, [0]) ∨ r[1]? = some (1, []) := by
   intro r
-  have h := (impl_refines_spec vm [m1, (Msg.mk life2 A value [.tload k])]
+  have h := (impl_refines_spec_partial vm [m1, (Msg.mk life2 A value [.tload k])]
     (by intro m hm; simp at hm; rcases hm with rfl | rfl <;> assumption)
     (by simp [hne])).1
   have key : ∀ w1 : SWorld, (specMsg w1 (Msg.mk life2 A value [.tload k])).1 = (1, [0]) ∨
@@ -148,7 +184,7 @@ theorem transient_empty_next_message (vm : VM) (m1 : Msg) (life2 : Life) (A k va
     intro w1
     by_cases hd : w1.dead A = true
     · right; simp [specMsg, hd]
-    · left; simp [specMsg, specOps, specOp, SRes.finish, topCtx, hd]
+    · left; simp [specMsg, specOps, specOp, SRes.finish, hd]
   show (implRun vm _).1[1]? = _ ∨ (implRun vm _).1[1]? = _
   rw [h]
   simp only [specRun, List.getElem?_cons_succ, List.getElem?_cons_zero]
@@ -170,7 +206,7 @@ theorem selfdestruct_deferred (vm : VM) (life1 life2 : Life) (A B C k v : Nat)
     r.1 = [(1, [1, 1, v]), (1, [1])] ∧ r.2.isDestroyed B = true ∧ r.2.storageAt B k = 0 ∧
     r.2.bal B = 0 ∧ r.2.bal C = vm.bal C + vm.bal B := by
   intro m1 m2 r
-  obtain ⟨h1, h2, h3, h4, _⟩ := impl_refines_spec vm [m1, m2]
+  obtain ⟨h1, h2, h3, h4, _⟩ := impl_refines_spec_partial vm [m1, m2]
     (by intro m hm; simp at hm; rcases hm with rfl | rfl <;> assumption) (by simp [m1, m2, hne])
   have hBA : B ≠ A := fun h => hAB h.symm
   have hBC : B ≠ C := fun h => hCB h.symm
@@ -202,7 +238,7 @@ theorem selfdestruct_deferred (vm : VM) (life1 life2 : Life) (A B C k v : Nat)
     not in `C`'s. -/
 theorem delegatecall_uses_caller_context (vm : VM) (life : Life) (A B C k v x : Nat)
     (hfresh : vm.Fresh life) (hA : vm.isDestroyed A = false) (hB : vm.isDestroyed B = false)
-    (hC : vm.isDestroyed C = false) (hCB : C ≠ B) (hCA : C ≠ A) :
+    (hC : vm.isDestroyed C = false) (hCB : C ≠ B) :
     let r := implMsg vm (Msg.mk life A x
         [.call .call B x [.call .delegate C 0 [.env 0, .env 1, .env 2, .sstore k v], .sload k]])
     r.1 = (1, [1, 1, B, A, x, v]) ∧ r.2.storageAt B k = v ∧ r.2.storageAt C k = vm.storageAt C k := by
